@@ -787,3 +787,381 @@ pub fn vp_roundtrip_bye(b: &crate::ByeBuilder, buf: &mut [u8])
 }
 
 } // verus!
+
+verus! {
+
+// ---- C05: feedback packets -----------------------------------------------------------------------------------
+pub open spec fn fb_body(sender: int, media: int, fci: Seq<u8>) -> Seq<u8> {
+    img_be32(sender) + img_be32(media) + fci
+}
+
+#[verifier::spinoff_prover]
+pub proof fn lemma_fb_image(pt: int, padding: int, format: int, sender: u32, media: u32, fci: Seq<u8>)
+    requires
+        pt == 205 || pt == 206,
+        0 <= padding <= 255,
+        padding % 4 == 0,
+        0 <= format <= 31,
+        fci.len() % 4 == 0,
+        12 + fci.len() + padding <= MAX_RTCP_BYTES,
+    ensures
+        ({
+            let s = img_fb(pt, padding, format, sender as int, media as int, fci);
+            &&& s.len() == 12 + fci.len() + padding
+            &&& fb_ok(s, pt)
+            &&& be32(s, 4) == sender
+            &&& be32(s, 8) == media
+            &&& hdr_count(s) == format
+            &&& hdr_pad(s) == (padding > 0)
+            &&& (padding > 0 ==> s[s.len() - 1] == padding)
+            &&& fb_fci(s) == fci
+        }),
+{
+    let s = img_fb(pt, padding, format, sender as int, media as int, fci);
+    let body = fb_body(sender as int, media as int, fci);
+    lemma_be32_img(sender as int);
+    lemma_be32_img(media as int);
+    lemma_concat3(img_be32(sender as int), img_be32(media as int), fci);
+    assert(body.len() == 8 + fci.len());
+    assert(s =~= img_header(padding, format, pt, 4 + body.len() + padding) + body + img_padding(padding));
+    lemma_framed_image(s, body, padding, format, pt, 12);
+    lemma_sub_read32(s, 4, 4 + body.len() as int, body, 0);
+    lemma_sub_read32(s, 4, 4 + body.len() as int, body, 4);
+    lemma_prefix_read32(body, img_be32(sender as int), 0);
+    assert(body.subrange(4, 8) == img_be32(media as int));
+    lemma_be32_at(body, 4, media as int);
+    assert(fb_fci(s) =~= fci) by {
+        assert(s.subrange(4, 4 + body.len() as int).subrange(8, body.len() as int) =~= s.subrange(12, 12 + fci.len() as int));
+    }
+}
+
+// ---- FIR: decoding the image yields the entries ---------------------------------------------------------------
+pub proof fn lemma_img_fir_len(e: Seq<(u32, u8)>, k: int)
+    requires
+        0 <= k <= e.len(),
+    ensures
+        img_fir(e, k).len() == 8 * k,
+    decreases k,
+{
+    if k > 0 {
+        lemma_img_fir_len(e, k - 1);
+    }
+}
+
+pub proof fn lemma_fir_entry_at(e: Seq<(u32, u8)>, k: int, i: int)
+    requires
+        0 <= i < k <= e.len(),
+    ensures
+        img_fir(e, k).len() == 8 * k,
+        be32(img_fir(e, k), 8 * i) == e[i].0,
+        img_fir(e, k)[8 * i + 4] == e[i].1,
+    decreases k,
+{
+    lemma_img_fir_len(e, k);
+    lemma_img_fir_len(e, k - 1);
+    let cur = img_fir(e, k);
+    let prev = img_fir(e, k - 1);
+    if i < k - 1 {
+        lemma_fir_entry_at(e, k - 1, i);
+        assert(cur.subrange(0, 8 * (k - 1)) =~= prev);
+        lemma_prefix_read32(cur, prev, 8 * i);
+        assert(cur[8 * i + 4] == prev[8 * i + 4]);
+    } else {
+        let ent = img_fir_entry(e[k - 1].0, e[k - 1].1);
+        lemma_be32_img(e[k - 1].0 as int);
+        assert(cur.subrange(8 * (k - 1), 8 * k) =~= ent);
+        assert(ent.subrange(0, 4) =~= img_be32(e[k - 1].0 as int));
+        lemma_be32_at(ent, 0, e[k - 1].0 as int);
+        lemma_sub_read32(cur, 8 * (k - 1), 8 * k, ent, 0);
+        assert(cur[8 * (k - 1) + 4] == ent[4]);
+    }
+}
+
+/// fir_rest of the image of n entries, from entry i, is the tail of the entry list
+// @LEMMA C05
+pub proof fn lemma_roundtrip_fir(e: Seq<(u32, u8)>, i: int)
+    requires
+        0 <= i <= e.len(),
+    ensures
+        fir_rest(img_fir(e, e.len() as int), i) == e.subrange(i, e.len() as int),
+    decreases e.len() - i,
+{
+    let d = img_fir(e, e.len() as int);
+    lemma_img_fir_len(e, e.len() as int);
+    if i < e.len() {
+        lemma_roundtrip_fir(e, i + 1);
+        lemma_fir_entry_at(e, e.len() as int, i);
+        assert(fir_rest(d, i) == seq![(be32(d, 8 * i) as u32, d[8 * i + 4])] + fir_rest(d, i + 1));
+        assert(seq![e[i]] + e.subrange(i + 1, e.len() as int) =~= e.subrange(i, e.len() as int));
+    } else {
+        assert(e.subrange(i, e.len() as int) =~= Seq::<(u32, u8)>::empty());
+    }
+}
+
+// ---- SLI ------------------------------------------------------------------------------------------------------
+pub proof fn lemma_img_sli_len(e: Seq<(u16, u16, u8)>, k: int)
+    requires
+        0 <= k <= e.len(),
+    ensures
+        img_sli(e, k).len() == 4 * k,
+    decreases k,
+{
+    if k > 0 {
+        lemma_img_sli_len(e, k - 1);
+    }
+}
+
+pub proof fn lemma_sli_word(first: u16, number: u16, picture: u8)
+    requires
+        first < 8192,
+        number < 8192,
+        picture < 64,
+    ensures
+        ({
+            let w = sli_word(first as int, number as int, picture as int);
+            &&& 0 <= w < 0x1_0000_0000
+            &&& sli_first(w) == first
+            &&& sli_number(w) == number
+            &&& sli_picture(w) == picture
+        }),
+{
+    let f = first as int;
+    let n = number as int;
+    let p = picture as int;
+    let w = f * 0x8_0000 + n * 64 + p;
+    assert(0 <= w < 0x1_0000_0000 && w / 0x8_0000 == f && (w / 64) % 8192 == n && w % 64 == p) by (nonlinear_arith)
+        requires
+            0 <= f < 8192,
+            0 <= n < 8192,
+            0 <= p < 64,
+            w == f * 0x8_0000 + n * 64 + p,
+    ;
+}
+
+pub proof fn lemma_sli_entry_at(e: Seq<(u16, u16, u8)>, k: int, i: int)
+    requires
+        0 <= i < k <= e.len(),
+        forall|j: int| 0 <= j < e.len() ==> (#[trigger] e[j]).0 < 8192 && e[j].1 < 8192 && e[j].2 < 64,
+    ensures
+        img_sli(e, k).len() == 4 * k,
+        be32(img_sli(e, k), 4 * i) == sli_word(e[i].0 as int, e[i].1 as int, e[i].2 as int),
+    decreases k,
+{
+    lemma_img_sli_len(e, k);
+    lemma_img_sli_len(e, k - 1);
+    let cur = img_sli(e, k);
+    let prev = img_sli(e, k - 1);
+    if i < k - 1 {
+        lemma_sli_entry_at(e, k - 1, i);
+        assert(cur.subrange(0, 4 * (k - 1)) =~= prev);
+        lemma_prefix_read32(cur, prev, 4 * i);
+    } else {
+        let w = sli_word(e[k - 1].0 as int, e[k - 1].1 as int, e[k - 1].2 as int);
+        lemma_sli_word(e[k - 1].0, e[k - 1].1, e[k - 1].2);
+        assert(cur.subrange(4 * (k - 1), 4 * k) =~= img_be32(w));
+        lemma_be32_at(cur, 4 * (k - 1), w);
+    }
+}
+
+// @LEMMA C05
+pub proof fn lemma_roundtrip_sli(e: Seq<(u16, u16, u8)>, i: int)
+    requires
+        0 <= i <= e.len(),
+        forall|j: int| 0 <= j < e.len() ==> (#[trigger] e[j]).0 < 8192 && e[j].1 < 8192 && e[j].2 < 64,
+    ensures
+        sli_rest(img_sli(e, e.len() as int), 4 * i) == e.subrange(i, e.len() as int),
+    decreases e.len() - i,
+{
+    let d = img_sli(e, e.len() as int);
+    lemma_img_sli_len(e, e.len() as int);
+    if i < e.len() {
+        lemma_roundtrip_sli(e, i + 1);
+        lemma_sli_entry_at(e, e.len() as int, i);
+        lemma_sli_word(e[i].0, e[i].1, e[i].2);
+        assert(seq![e[i]] + e.subrange(i + 1, e.len() as int) =~= e.subrange(i, e.len() as int));
+    } else {
+        assert(e.subrange(i, e.len() as int) =~= Seq::<(u16, u16, u8)>::empty());
+    }
+}
+
+// ---- RPSI -----------------------------------------------------------------------------------------------------
+// @LEMMA C05
+pub proof fn lemma_roundtrip_rpsi(pt: u8, data: Seq<u8>, overrun: u8)
+    requires
+        pt <= 127,
+        overrun <= 8,
+        data.len() > 0 || overrun == 0,
+        data.len() <= MAX_RTCP_BYTES,
+    ensures
+        ({
+            let d = img_rpsi(pt as int, data, overrun as int);
+            let n = data.len() as int;
+            &&& d.len() == rpsi_size(n)
+            &&& rpsi_ok(d)
+            &&& rpsi_pt(d) == pt
+            // the decoder drops the alignment octets and, when a whole octet is ignored, that octet too
+            &&& 8 * rpsi_bytes(d).len() - rpsi_ignored_bits(d) == 8 * n - overrun
+            &&& forall|j: int| 0 <= j < rpsi_bytes(d).len() ==> #[trigger] rpsi_bytes(d)[j] == (if j == n - 1 { rpsi_clear(data[j], overrun as int) } else { data[j] })
+        }),
+{
+    let d = img_rpsi(pt as int, data, overrun as int);
+    let n = data.len() as int;
+    lemma_pad4(2 + n);
+    let fill = rpsi_size(n) - n - 2;
+    assert(0 <= fill < 4);
+    let pb = 8 * fill + overrun;
+    assert(d[0] == pb as u8);
+    assert(pb / 8 == fill + overrun as int / 8 && pb % 8 == overrun as int % 8);
+    assert(d.len() == rpsi_size(n));
+    let rb = rpsi_bytes(d);
+    assert forall|j: int| 0 <= j < rb.len() implies #[trigger] rb[j] == (if j == n - 1 { rpsi_clear(data[j], overrun as int) } else { data[j] }) by {
+        assert(rb[j] == d[2 + j]);
+    }
+}
+
+} // verus!
+
+verus! {
+
+/// C05 as verified programs over the real API (borrowed FCI builder, build, parse, decode the FCI)
+// @LEMMA C05
+pub fn vp_roundtrip_fir(fir: &crate::FirBuilder, sender: u32, media: u32, padding: u8, buf: &mut [u8])
+    requires
+        fir.spec_calc() is Ok,
+        padding % 4 == 0,
+        old(buf).len() == 12 + 8 * fir.ssrc_seq@.len() + padding,
+        12 + 8 * fir.ssrc_seq@.len() + padding <= MAX_RTCP_BYTES,
+{
+    let b = crate::PayloadFeedback::builder(fir).sender_ssrc(sender).media_ssrc(media).padding(padding);
+    proof {
+        broadcast use crate::feedback::fir::axiom_fir_order;
+        crate::feedback::fir::lemma_img_fir_len(crate::feedback::fir::fir_order(&fir.ssrc_seq), fir.ssrc_seq@.len() as int);
+    }
+    assert(b.spec_calc() is Ok);
+    let n = b.write_into_unchecked(buf);
+    proof {
+        lemma_fb_image(206, padding as int, 4, sender, media, fir.spec_bytes());
+        lemma_roundtrip_fir(crate::feedback::fir::fir_order(&fir.ssrc_seq), 0);
+    }
+    let parsed = crate::PayloadFeedback::parse(buf);
+    assert(parsed is Ok);
+    let p = parsed.unwrap();
+    let s = p.sender_ssrc();
+    let m = p.media_ssrc();
+    let pad = p.padding();
+    let fmt = p.count();
+    assert(s == sender && m == media && fmt == 4);
+    assert(pad == (if padding == 0 { None::<u8> } else { Some(padding) }));
+    proof {
+        crate::feedback::fir::Fir::lemma_fci_consts();
+    }
+    let f = p.parse_fci::<crate::Fir>();
+    assert(f is Ok);
+    let f = f.unwrap();
+    let it = f.entries();
+    // the iterator starts on an FCI whose RFC decoding is the map's entries (in the builder's iteration order)
+    assert(fir_rest(it.parser.data@, it.i as int) =~= crate::feedback::fir::fir_order(&fir.ssrc_seq));
+}
+
+} // verus!
+
+verus! {
+
+// @LEMMA C05
+pub fn vp_roundtrip_sli(sli: &crate::SliBuilder, sender: u32, media: u32, padding: u8, buf: &mut [u8])
+    requires
+        padding % 4 == 0,
+        old(buf).len() == 12 + 4 * sli.lost_mbs@.len() + padding,
+        12 + 4 * sli.lost_mbs@.len() + padding <= MAX_RTCP_BYTES,
+        forall|j: int| 0 <= j < sli.lost_mbs@.len() ==> (#[trigger] sli.lost_mbs@[j]).start < 8192 && sli.lost_mbs@[j].count < 8192 && sli.lost_mbs@[j].picture_id < 64,
+{
+    let b = crate::PayloadFeedback::builder(sli).sender_ssrc(sender).media_ssrc(media).padding(padding);
+    let ghost ents = crate::feedback::sli::mbes_view(sli.lost_mbs@);
+    proof {
+        lemma_img_sli_len(ents, ents.len() as int);
+    }
+    assert(b.spec_calc() is Ok);
+    let n = b.write_into_unchecked(buf);
+    proof {
+        lemma_fb_image(206, padding as int, 2, sender, media, sli.spec_bytes());
+        lemma_roundtrip_sli(ents, 0);
+        crate::feedback::sli::Sli::lemma_fci_consts();
+    }
+    let parsed = crate::PayloadFeedback::parse(buf);
+    assert(parsed is Ok);
+    let p = parsed.unwrap();
+    let s = p.sender_ssrc();
+    let m = p.media_ssrc();
+    let pad = p.padding();
+    assert(s == sender && m == media);
+    assert(pad == (if padding == 0 { None::<u8> } else { Some(padding) }));
+    let f = p.parse_fci::<crate::Sli>();
+    assert(f is Ok);
+    let f = f.unwrap();
+    let it = f.lost_macroblocks();
+    assert(sli_rest(it.data@, it.i as int) =~= ents);
+}
+
+// @LEMMA C05
+pub fn vp_roundtrip_rpsi(rpsi: &crate::RpsiBuilder, sender: u32, media: u32, padding: u8, buf: &mut [u8])
+    requires
+        rpsi.spec_calc() is Ok,
+        padding % 4 == 0,
+        old(buf).len() == 12 + rpsi_size(cow_u8(&rpsi.native_bit_string).len() as int) + padding,
+        12 + rpsi_size(cow_u8(&rpsi.native_bit_string).len() as int) + padding <= MAX_RTCP_BYTES,
+{
+    let b = crate::PayloadFeedback::builder(rpsi).sender_ssrc(sender).media_ssrc(media).padding(padding);
+    let ghost data = cow_u8(&rpsi.native_bit_string);
+    proof {
+        lemma_pad4(2 + data.len() as int);
+        lemma_roundtrip_rpsi(rpsi.payload_type, data, rpsi.native_bit_overrun);
+    }
+    assert(b.spec_calc() is Ok);
+    let n = b.write_into_unchecked(buf);
+    proof {
+        lemma_fb_image(206, padding as int, 3, sender, media, rpsi.spec_bytes());
+        crate::feedback::rpsi::Rpsi::lemma_fci_consts();
+    }
+    let parsed = crate::PayloadFeedback::parse(buf);
+    assert(parsed is Ok);
+    let p = parsed.unwrap();
+    let s = p.sender_ssrc();
+    let m = p.media_ssrc();
+    assert(s == sender && m == media);
+    let f = p.parse_fci::<crate::Rpsi>();
+    assert(f is Ok);
+    let f = f.unwrap();
+    let pt = f.payload_type();
+    let (bits, ignored) = f.bit_string();
+    assert(pt == rpsi.payload_type);
+    // the same bit string bit-for-bit: same number of bits, same octets (the builder clears the ignored trailing bits)
+    assert(8 * bits@.len() - ignored == 8 * data.len() - rpsi.native_bit_overrun);
+    assert(forall|j: int| 0 <= j < bits@.len() ==> #[trigger] bits@[j] == (if j == data.len() - 1 { rpsi_clear(data[j], rpsi.native_bit_overrun as int) } else { data[j] }));
+}
+
+// @LEMMA C05
+pub fn vp_roundtrip_pli(pli: &crate::PliBuilder, sender: u32, media: u32, padding: u8, buf: &mut [u8])
+    requires
+        padding % 4 == 0,
+        old(buf).len() == 12 + padding,
+{
+    let b = crate::PayloadFeedback::builder(pli).sender_ssrc(sender).media_ssrc(media).padding(padding);
+    assert(b.spec_calc() is Ok);
+    let n = b.write_into_unchecked(buf);
+    proof {
+        lemma_fb_image(206, padding as int, 1, sender, media, pli.spec_bytes());
+        crate::feedback::pli::Pli::lemma_fci_consts();
+    }
+    let parsed = crate::PayloadFeedback::parse(buf);
+    assert(parsed is Ok);
+    let p = parsed.unwrap();
+    let s = p.sender_ssrc();
+    let m = p.media_ssrc();
+    let pad = p.padding();
+    assert(s == sender && m == media);
+    assert(pad == (if padding == 0 { None::<u8> } else { Some(padding) }));
+    let f = p.parse_fci::<crate::Pli>();
+    assert(f is Ok);
+}
+
+} // verus!
